@@ -270,6 +270,9 @@ type Val struct {
 	Math string // "int" | "bool" | ""
 	// closure info
 	Closure *closureInfo
+	// for interface values built by MakeInterface in the function under analysis:
+	// the concrete value that was boxed
+	Box *Val
 }
 
 type Step struct {
